@@ -165,15 +165,20 @@ def oracle(gens, dumped):
         v.append("the log holds %d events that were never acknowledged, in flight or attempted: first %s" % (len(events) - j, json.dumps(events[j])[:160]))
     for sub, e in saved_expect.items():
         got = (dumped.get("saved") or {}).get(sub, "")
-        if e["acked"] == "" and not e["maybe"] and sub in (dumped.get("resume") or {}):
-            # last acknowledged save was a rewind to the start (or nothing was ever saved): whatever string
-            # LoadOffset returns, a Read resumed from it must return the whole log
-            if dumped["resume"][sub] != len(events):
-                v.append("LoadOffset(%s) = %r after reopening resumes at %d of %d events; the last acknowledged SaveOffset set the subscription back to the start of the log" % (sub, got, len(events) - dumped["resume"][sub], len(events)))
-            continue
-        if "<oldest>" in e["maybe"] and (dumped.get("resume") or {}).get(sub) == len(events):
+        # "the start of the log" may come back under another name than it was saved under: what counts is that a
+        # read resumed from the loaded offset returns the whole log
+        at_start = (dumped.get("resume") or {}).get(sub) == len(events)
+        if e["acked"] == "" and at_start:
+            continue  # last acknowledged save was a rewind to the start, or nothing was ever saved
+        if "<oldest>" in e["maybe"] and at_start:
             continue  # the in-flight rewind to the start took effect
-        if got != e["acked"] and got not in e["maybe"]:
+        if e["acked"] != "" and got == e["acked"]:
+            continue
+        if got in e["maybe"]:
+            continue
+        if e["acked"] == "":
+            v.append("LoadOffset(%s) = %r after reopening resumes at %s of %d events; the last acknowledged SaveOffset set the subscription back to the start of the log (in-flight candidates %s)" % (sub, got, (dumped.get("resume") or {}).get(sub), len(events), sorted(e["maybe"])))
+        else:
             v.append("LoadOffset(%s) = %r after reopening; last acknowledged SaveOffset was %r (in-flight candidates %s)" % (sub, got, e["acked"], sorted(e["maybe"])))
     return v
 
